@@ -207,8 +207,9 @@ def openSrc (k : CompKind) (p : Name) : M Unit :=
     if !w.fs.has p then M.throw .osError else pure ()
   else pure ()
 
-/-- `compress_function(path_in, path_out)` for the three kinds -/
-def compressFn (k : CompKind) (p out : Name) : M Unit := do
+/-- `compress_function(path_in, path_out)` for the three kinds – the hand-written reading (kept as the reference the
+generated primitive list is proved equal to: `compressFn_eq`) -/
+def compressFnHand (k : CompKind) (p out : Name) : M Unit := do
   openSrc k p
   -- the opener creates / truncates the archive
   tick (.copen out)
@@ -219,6 +220,28 @@ def compressFn (k : CompKind) (p out : Name) : M Unit := do
   match w.fs.get p with
   | none => M.throw .osError
   | some e => modW fun w => { w with fs := w.fs.set out (.arch (innerOf k p) e.content) }
+
+/-- one primitive of a compress function (`Gen.compressPrims`, read from the `with` nests of /repo) -/
+def cPrim (k : CompKind) (p out : Name) : CPrim → M Unit
+  | .openSource _ => do
+      tick (.openr p)
+      let w ← getW
+      if !w.fs.has p then M.throw .osError else pure ()
+  | .openArchive => do
+      tick (.copen out)
+      modW fun w => { w with fs := w.fs.set out (.arch (match k with | .copy => .stream | .add => .broken | .write => .noMember) []),
+                             clobbered := if w.fs.has out then out :: w.clobbered else w.clobbered }
+  | .transfer _ => do
+      tick .ccopy
+      let w ← getW
+      match w.fs.get p with
+      | none => M.throw .osError
+      | some e => modW fun w => { w with fs := w.fs.set out (.arch (innerOf k p) e.content) }
+  | .closeArchive => pure ()
+  | .closeSource => pure ()
+
+/-- `compress_function(path_in, path_out)`: interpreter of the GENERATED primitive sequence of the kind -/
+def compressFn (k : CompKind) (p out : Name) : M Unit := seqM ((Gen.compressPrims k).map (cPrim k p out))
 
 def cStep (k : CompKind) (p : Name) (ct : Nat) : CStep → M Unit
   | .pathOut => pure ()
@@ -290,17 +313,23 @@ def terminate (cfg : Cfg) (o : Orc) (rotating : Bool) : M Unit := do
   whenM (rotating || !cfg.hasRot) (finishOld cfg o old)
   whenM rotating (createFile cfg (createPath o))
 
-/-- `_reopen_if_needed` -/
+/-- one statement of the re-open branch of `_reopen_if_needed` -/
+def rStep (cfg : Cfg) (p : Name) : RStep → M Unit
+  | .close => closeFile
+  | .mkdirs => mkdirs
+  | .create => createFile cfg p
+
+/-- `_reopen_if_needed`: the test is the GENERATED kernel `Gen.reopenNeeded` (file missing / device differs /
+inode differs; the model's `mismatch` stands for "recorded (dev, ino) differ from the path's"), the branch follows
+the GENERATED statement order `Gen.reopenOrder` -/
 def reopenIfNeeded (cfg : Cfg) : M Unit := do
   let w ← getW
   match w.cur with
   | none => pure ()
   | some p =>
     tick .stat
-    if !w.fs.has p || w.mismatch then
-      closeFile
-      mkdirs
-      createFile cfg p
+    if Gen.reopenNeeded (!w.fs.has p) w.mismatch w.mismatch then
+      seqM (Gen.reopenOrder.map (rStep cfg p))
 
 /-- `self._file.write(message)` -/
 def writeMsg : M Unit := do
@@ -333,9 +362,12 @@ def writeBody (cfg : Cfg) (o : Orc) : M Unit := do
   whenM cfg.hasRot (rotateIfDue cfg o)
   writeMsg
 
-def stopBody (cfg : Cfg) (o : Orc) : M Unit := do
-  whenM cfg.watch (reopenIfNeeded cfg)
-  terminate cfg o false
+def sStep (cfg : Cfg) (o : Orc) : SStep → M Unit
+  | .reopen => whenM cfg.watch (reopenIfNeeded cfg)
+  | .terminate => terminate cfg o false
+
+/-- `FileSink.stop()`, following the generated statement order -/
+def stopBody (cfg : Cfg) (o : Orc) : M Unit := seqM (Gen.stopOrder.map (sStep cfg o))
 
 /-- the tail of `FileSink.__init__` when `delay=False` -/
 def initBody (cfg : Cfg) (o : Orc) : M Unit := lazyCreate cfg o
